@@ -68,7 +68,7 @@ impl Check for SpscCheck {
     }
     fn budget(&self, tier: Tier) -> Budget {
         match tier {
-            Tier::Quick => Budget { runs: 6000, max_secs: 45.0 },
+            Tier::Quick => Budget { runs: 40000, max_secs: 45.0 },
             Tier::Thorough => Budget { runs: 2_000_000, max_secs: 900.0 },
         }
     }
@@ -316,7 +316,7 @@ impl Check for EosCheck {
     }
     fn budget(&self, tier: Tier) -> Budget {
         match tier {
-            Tier::Quick => Budget { runs: 30_000, max_secs: 45.0 },
+            Tier::Quick => Budget { runs: 100000, max_secs: 45.0 },
             Tier::Thorough => Budget { runs: 5_000_000, max_secs: 900.0 },
         }
     }
@@ -691,7 +691,7 @@ impl Check for MtGraphCheck {
     }
     fn budget(&self, tier: Tier) -> Budget {
         match tier {
-            Tier::Quick => Budget { runs: 1500, max_secs: 60.0 },
+            Tier::Quick => Budget { runs: 3000, max_secs: 50.0 },
             Tier::Thorough => Budget { runs: 300_000, max_secs: 1200.0 },
         }
     }
